@@ -823,6 +823,15 @@ def direct_connect_outputs(block=None):
     # NOTE: would use transform.all_nets(), but it becomes tricky when
     # we want to remove more than just the current net on a single pass
     block = working_block(block)
+
+    # A chain of 'w' nets in front of an Output is collapsed one net per
+    # round, so repeat until no eligible net is left.
+    while _direct_connect_outputs_round(block):
+        pass
+
+
+def _direct_connect_outputs_round(block):
+    """ One round of direct_connect_outputs; returns True if the block changed. """
     _, dst_nets = block.net_connections()
 
     nets_to_remove = set()
@@ -857,6 +866,7 @@ def direct_connect_outputs(block=None):
     block.logic.update(nets_to_add)
     for w in wirevectors_to_remove:
         block.remove_wirevector(w)
+    return len(nets_to_remove) > 0
 
 
 def _make_tree(wire, block, curr_fanout):
